@@ -12,7 +12,7 @@ CALLEES = {'save_point', 'change_point', 'add_new_point', 'add_new_sample', 'swa
            'evaluate_objective', 'eval_least_squares_with_regularisation', 'objfun', 'objfun_orig', 'ExitInformation', 'OptimResults',
            'solve_main', 'soft_restart', 'reduce_rho', 'h', 'prox_uh', 'dykstra', 'save_info_from_control', 'Controller', 'Model',
            'remove_scaling', 'apply_scaling', 'gradient_Fu', 'nsamples', 'ParameterList', 'DiagnosticInfo', 'trsbox', 'd_within_bounds',
-           'ctrsbox_sfista', 'ctrsbox_pgd', 'ctrsbox_geometry', 'trsbox_geometry', 'pbox', 'pball', 'copy', 'astype', 'seed'}
+           'ctrsbox_sfista', 'ctrsbox_pgd', 'ctrsbox_geometry', 'trsbox_geometry', 'pbox', 'pball', 'copy', 'astype', 'seed', 'append', 'allclose'}
 TARGET_ATTRS = {'nf', 'nx', 'delta', 'rho', 'rhoend', 'rhobeg', 'maxfun', 'kopt', 'eval_num', 'nsamples', 'objsave', 'xsave',
                 'last_successful_iter', 'last_run_fixed_rho', 'total_unsuccessful_restarts', 'factorisation_current'}
 TARGET_NAMES = {'nruns_so_far', 'nf', 'nx', 'rhoend', 'rhobeg', 'exit_info', 'objfun', 'objfun_orig', 'xl_orig', 'xu_orig', 'xl', 'xu', 'x0',
@@ -20,7 +20,8 @@ TARGET_NAMES = {'nruns_so_far', 'nf', 'nx', 'rhoend', 'rhobeg', 'exit_info', 'ob
                 'scaling_changes', 'projections', 'params', 'xmin', 'rmin', 'objmin', 'jacmin', 'xmin_eval_num', 'jacmin_eval_nums',
                 'last_successful_run', 'total_unsuccessful_restarts', 'exit_flag', 'exit_msg', 'results', 'nsamples_min',
                 'rvec', 'obj', 'nsamples', 'x_eval_num', 'jac_eval_nums', 'xmin2', 'rmin2', 'objmin2', 'jacmin2', 'nsamples2',
-                'xmin_eval_num2', 'jacmin_eval_nums2', 'diagnostic_info', 'r0_avg', 'obj0_avg', 'nx_so_far', 'nf_so_far', 'x0_eval_num'}
+                'xmin_eval_num2', 'jacmin_eval_nums2', 'diagnostic_info', 'r0_avg', 'obj0_avg', 'nx_so_far', 'nf_so_far', 'x0_eval_num',
+                'xlb', 'xub', 'xp', 'bproj'}
 COMMITS = {'save_point', 'change_point', 'add_new_point'}
 FILES = ('util', 'model', 'controller', 'solver', 'trust_region', 'params', 'diagnostic_info')
 
